@@ -101,4 +101,10 @@ CHECKS = [
              "system call each death (and its SIGCHLD handler) lands; at quiescence live == tracked == model target, no zombies, surplus TERMs oldest-first, "
              "boot errors (3/4) end run() with that status.",
      "note": "signal handlers run at fake-syscall boundaries only; worker processes are simulated (the real worker classes are not run here)"},
+    {"id": "C11", "engine": "K+R",
+     "technique": "schedule-driven property testing (Hypothesis) of the real timeout scan in virtual time on a simulated kernel, two-sided oracle; enumerated real-process hang/healthy cases",
+     "text": "K: timeouts x pool sizes x heartbeat lags drawn within the wait bound the arbiter really passes x hang events (stops heart-beating, ignores "
+             "SIGABRT) x schedules: hung workers must get ABRT within timeout+2 s of their last heartbeat, KILL within 2 s more, be reaped and replaced; "
+             "healthy workers must never get ABRT/KILL from the scan. R: real servers (all worker classes) with hung/stopped/ABRT-ignoring and busy-but-healthy workers.",
+     "note": "virtual time; simulated worker processes in K; wall-clock slack in R (budget overrun = inconclusive)"},
 ]
